@@ -132,6 +132,37 @@ def o3(h, st):
     h.done()
 
 
+@contract("C13", "O3b.vqe.rdms.noise_model_route", level="B", structures=lambda tier: [{"mapping": m, "utd": u} for m, u in (("jw", False), ("bk", True))],
+          native_samples=lambda st, rnd, tier: [{"seed": 1 + rnd.randint(0, 3)}], targets=[(VQ, "VQESolver.get_rdm")])
+def o3b(h, st):
+    """bounded (sampled, fixed seed): with a noise model set (all rates zero, so that the reference is known) get_rdm takes its 'simulate from scratch' route - measurement-basis
+    gates appended to and removed from the preparation circuit for every term -: it returns, the RDMs trace to the number of electrons, reproduce the exact energy within the
+    sampling error (20000 shots; tolerance 0.03 Ha, about six standard deviations) and the ansatz circuit is left as it was"""
+    import numpy as np
+    from tangelo.algorithms.variational import VQESolver, BuiltInAnsatze
+    from tangelo.linq.noisy_simulation import NoiseModel
+    from contracts.C07 import molecule
+    from contracts.C08 import build_solver
+    np.random.seed(int(h.integer("seed")))
+    mol = molecule("H2")
+    nm = NoiseModel()
+    nm.add_quantum_error("CNOT", "depol", 0.0)
+    s = VQESolver({"molecule": mol, "ansatz": BuiltInAnsatze.UCCSD, "qubit_mapping": st["mapping"], "up_then_down": st["utd"],
+                   "backend_options": {"target": "cirq", "n_shots": 20000, "noise_model": nm}})
+    s.build()
+    th = np.array([0.05, -0.3])
+    s.ansatz.update_var_params(th)
+    gates_before = snapshot([g.__dict__ for g in s.ansatz.circuit._gates])
+    one, two = h.call(VQ, "VQESolver.get_rdm", s, th)
+    exact = build_solver({"mol": "H2", "ansatz": "UCCSD", "mapping": st["mapping"], "utd": st["utd"]}).energy_estimation(th)
+    e_rdm = mol.energy_from_rdms(one, two)
+    h.check("energy from the sampled RDMs within the sampling error of the exact energy", abs(e_rdm - exact) < 0.03, detail=f"{e_rdm} vs {exact}")
+    h.check("tr(1-RDM) == number of active electrons (within the sampling error)", abs(np.trace(one) - 2) < 0.05, detail=str(np.trace(one)))
+    s.ansatz.update_var_params(th)
+    h.check("ansatz circuit left as it was (basis-change gates removed again)", snapshot([g.__dict__ for g in s.ansatz.circuit._gates]) == gates_before)
+    h.done()
+
+
 # O5 variational RDMs with OPAQUE expectation values: index placement as a linear identity ------------------------------------------------
 
 def _pname(term):
